@@ -244,7 +244,8 @@ type permStats struct {
 	pure, real int64
 	block      int64
 	rootCause  int64 // mismatches explained by the group kind skipping the method list
-	first      *permCase
+	witness    map[string]*permCase
+	rootBySub  map[string]int
 	allowed    int64
 	denied     int64
 	deployed   int
@@ -256,10 +257,11 @@ func (ps *permStats) report(r *vk.Run, pc permCase, perms []permShape, c *callee
 	defer ps.mu.Unlock()
 	if pc.Got == "allowed" && pc.Want == "denied" && groupRootCause(perms, c, pc.Method) {
 		ps.rootCause++
-		// keep the simplest witness: fewest permissions, pure before real
-		if ps.first == nil || len(pc.Caller.Perms) < len(ps.first.Caller.Perms) {
+		ps.rootBySub[pc.Sub]++
+		// keep the simplest witness of each sub-check: fewest permissions, earliest
+		if w := ps.witness[pc.Sub]; w == nil || len(pc.Caller.Perms) < len(w.Caller.Perms) || (len(pc.Caller.Perms) == len(w.Caller.Perms) && pc.Caller.String()+pc.Callee+pc.Method < w.Caller.String()+w.Callee+w.Method) {
 			cp := pc
-			ps.first = &cp
+			ps.witness[pc.Sub] = &cp
 		}
 		r.Outcome("perm:" + pc.Sub + ":group-permission-allowed-unlisted-method")
 		return
